@@ -1,4 +1,4 @@
 SPECIFICATION Spec
-CONSTANTS Amts = {0, 1, 2, 3, 4, 5, 6, 7, 9, 10, 11, 99, 100, 101, 1000, 46340}  Rates = {0, 1, 2, 3, 4, 5, 6, 7, 9, 10, 11, 99, 100, 101, 1000, 46340}
+CONSTANTS Amts = {0, 1, 2, 3, 5, 7, 10, 11, 100, 101, 1000, 46340}  Rates = {0, 1, 2, 3, 5, 7, 10, 11, 100, 101, 1000, 46340}
 INVARIANTS RefusedIff ExactFloor ValueNonIncrease NeverMoreThanSpot AvgEqualSpotSame RoundTrip Monotone ZeroIn Identity
 CHECK_DEADLOCK FALSE
